@@ -1,3 +1,342 @@
-import ApiFu.C15.Model
+/-
+  C15 — property theorems. Every theorem quantifies over all reachable states of the model
+  (`Reachable c s`: any label sequence from the initial state = any query shape, any interleaving of
+  resolver calls, background completions and idle-handler steps), and where stated over every
+  `Cfg` (the code before and after repo-patches/C15/01-fix).
+-/
+import ApiFu.C15.Lemmas
+
 namespace ApiFu.C15
+
+/-- **batch_positional** — for every call a batch function ever received (in any reachable state):
+    it got as many field contexts as there are promises, and result `i` of the call is what promise
+    `i` of the call — the promise handed out for field context `i`, see `batch_exactly_once` — holds. -/
+theorem batch_positional {c : Cfg} {s : St} (h : Reachable c s) :
+    ∀ cl ∈ s.calls, cl.items.length = cl.dests.length ∧
+      ∀ i (h1 : i < cl.dests.length) (h2 : i < cl.results.length), (cl.dests[i], cl.results[i]) ∈ s.delivered := by
+  intro cl hcl
+  refine ⟨h.inv2.callLens cl hcl, ?_⟩
+  intro i h1 h2
+  exact h.inv3.callsDelivered cl hcl _ (mem_zip_of_getElem cl.dests cl.results i h1 h2)
+
+/-- **batch_exactly_once** — until the request returns, for every Batch resolver `k` the sequence of
+    (field context, promise) pairs registered with it equals, *in order*, the concatenation of the
+    arguments of all calls made to its batch function so far followed by what is still pending:
+    every pending field context is seen exactly once, by one call, at the position whose result is
+    routed to its promise. -/
+theorem batch_exactly_once {c : Cfg} {s : St} (h : Reachable c s) (hp : s.phase ≠ .returned) (k : Nat) :
+    regPairs s k = callPairs s k ++ pendPairs s k :=
+  h.inv2.once hp k
+
+/-- **one_call_per_wave** — two calls of the same batch resolver in the same wave (= idle-handler
+    invocation) are the same call. -/
+theorem one_call_per_wave {c : Cfg} {s : St} (h : Reachable c s) {c1 c2 : Call} (h1 : c1 ∈ s.calls) (h2 : c2 ∈ s.calls)
+    (hw : c1.wave = c2.wave) (hk : c1.key = c2.key) : c1 = c2 :=
+  eq_of_nodup_map (fun c : Call => (c.wave, c.key)) s.calls h.inv2.callNodup h1 h2 (by simp [hw, hk])
+
+/-- **flush_delivers_all_pending** — the flush step of a wave calls the batch function of *every*
+    pending batch with *all* its pending field contexts, in the current wave, and leaves nothing
+    pending (with `one_call_per_wave`: all invocations of one Batch resolver pending at an idle point
+    are delivered in a single call). -/
+theorem flush_delivers_all_pending {c : Cfg} {s s' : St} {rs : List (Nat × List Res)} (h : Reachable c s)
+    (hs : step c s (.flush rs) = some s') :
+    s'.batches = [] ∧ ∀ b ∈ s.batches, ∃ cl ∈ s'.calls, cl.wave = s.wave ∧ cl.key = b.key ∧ cl.items = b.items ∧ cl.dests = b.dests := by
+  obtain ⟨_, _, _, rfl⟩ := step_flush hs
+  rw [flushAll_fresh s.wave rs s.batches s h.idsOK.q_not_delivered h.idsOK.q_nodup]
+  refine ⟨rfl, ?_⟩
+  intro b hb
+  refine ⟨mkCall s.wave rs b, ?_, rfl, rfl, rfl, rfl⟩
+  simp only [List.mem_append, List.mem_reverse, List.mem_map]
+  exact Or.inl ⟨b, hb, rfl⟩
+
+/-- Non-vacuity of the batching theorems: two invocations of resolver 7 and one of resolver 9 are
+    flushed in one wave, one call each, positions kept. -/
+example :
+    (match runFrom ⟨true⟩ init [.batch 7 100 0, .batch 9 101 1, .batch 7 102 2, .idle,
+        .flush [(7, [⟨1, false⟩, ⟨2, false⟩]), (9, [⟨3, false⟩])]] 0 with
+     | .ok s => some (s.calls.map (fun c => (c.wave, c.key, c.items, c.dests)), s.delivered.map (fun x => (x.1, x.2.val)))
+     | .error _ => none) =
+    some ([(1, 9, [101], [1]), (1, 7, [100, 102], [0, 2])], [(1, 3), (2, 2), (0, 1)]) := by rfl
+
+/-- **delivered_result_right** — whatever a promise holds was produced for exactly that promise:
+    it is the value the body of *its own* Go task returned, or the result at *its own* position in a
+    batch call, or (patched code, after the return) the error given to a never-flushed batch slot.
+    No promise receives a second result, and no task body's result is recorded twice. -/
+theorem delivered_result_right {c : Cfg} {s : St} (h : Reachable c s) :
+    (∀ x ∈ s.delivered, x ∈ s.finished ∨
+        (∃ cl ∈ s.calls, ∃ i, ∃ (h1 : i < cl.dests.length) (h2 : i < cl.results.length), cl.dests[i] = x.1 ∧ cl.results[i] = x.2) ∨
+        (c.fixed = true ∧ s.phase = .returned ∧ x.2 = errFinished)) ∧
+    (s.delivered.map (·.1)).Nodup ∧ (s.finished.map (·.1)).Nodup := by
+  refine ⟨?_, ?_, h.inv3.finNodup⟩
+  · intro x hx
+    rcases h.inv3.deliveredOK x hx with h1 | ⟨cl, hcl, h1⟩ | h1
+    · exact Or.inl h1
+    · right; left
+      obtain ⟨i, hi, hget⟩ := List.getElem_of_mem h1
+      have hlen : i < cl.dests.length ∧ i < cl.results.length := by
+        simp [List.length_zip] at hi; omega
+      refine ⟨cl, hcl, i, hlen.1, hlen.2, ?_⟩
+      simp [List.getElem_zip] at hget
+      cases x
+      simp_all
+    · exact Or.inr (Or.inr h1)
+  · apply List.nodup_iff_count.mpr
+    intro a
+    have := h.idsOK a
+    unfold cnt dIds at this
+    split at this <;> omega
+
+/-- **dest_send_never_blocks** — the idle handler's `resolution.Dest <- resolution.Result` (and the
+    flush goroutines' `b.dests[i] <- result`) always find the promise's single buffer slot free. -/
+theorem dest_send_never_blocks {c : Cfg} {s : St} (h : Reachable c s) : s.destFull = false :=
+  h.inv1.destFull
+
+/-- **idle_progress (no deadlock)** — whenever the idle handler is at the head of its loop (it was
+    called because some promise the executor waits for is outstanding), and no batch function broke
+    its contract (`crashed`: too many results, `orphaned`: too few), the handler is not stuck: there
+    is a pending batch to flush, or a resolution is on offer, or the body of some running task can
+    return (for a chain/join task: all the promises it receives from have been fulfilled). In the
+    drain phase it can always return. -/
+theorem idle_progress {c : Cfg} {s : St} (h : Reachable c s) (hc : s.crashed = false) (ho : s.orphaned = []) :
+    (s.phase = .top → (∃ rs s', step c s (.flush rs) = some s') ∨ (∃ t s', step c s (.recvBlock t) = some s') ∨
+                      (∃ t r s', step c s (.fin t r) = some s')) ∧
+    (s.phase = .drain → ∃ s', step c s .idleRet = some s') := by
+  have hd := h.inv1.destFull
+  constructor
+  · intro hp
+    by_cases hb : s.batches = []
+    · by_cases hbl : s.blocked = []
+      · right; right
+        apply fin_enabled h.idsOK h.inv1 hc hbl hb ho
+        -- the awaited promise has no result, so a task for it is still running
+        obtain ⟨w, hw, hwd, _⟩ := h.invTop hp
+        have hcnt := h.idsOK w
+        rw [if_pos hw] at hcnt
+        unfold cnt at hcnt
+        have h1 : (bIds s).count w = 0 := by simp [bIds, hbl]
+        have h2 : (qIds s).count w = 0 := by simp [qIds, hb]
+        have h3 : s.orphaned.count w = 0 := by simp [ho]
+        have h4 : (dIds s).count w = 0 := List.count_eq_zero.mpr hwd
+        have : 0 < (rIds s).count w := by omega
+        have := List.count_pos_iff.mp this
+        intro e
+        simp [rIds, e] at this
+      · right; left
+        obtain ⟨x, hx⟩ := List.exists_mem_of_ne_nil _ hbl
+        obtain ⟨r', hr'⟩ := mem_lookup_isSome (t := x.1) (r := x.2) hx
+        refine ⟨x.1, ?_⟩
+        by_cases hch : x.1 ∈ s.chained <;> simp [step, hc, hd, hp, hb, hr', hch]
+    · left
+      refine ⟨[], ?_⟩
+      simp [step, hc, hp, hb]
+  · intro hp
+    simp [step, hc, hd, hp]
+
+/-- **idle_terminates** — inside one invocation of the idle handler (no resolver call, no return of
+    the handler) every step — a task body returning, the flush, a receive — strictly decreases
+    `2·#running + #offers + #pending batches`: the handler runs for at most that many steps, in
+    particular it loops (`continue` after a chained resolution) at most once per running task. -/
+theorem idle_terminates {c : Cfg} {s s' : St} {l : Label} (h : Reachable c s) (hs : step c s l = some s')
+    (hp : s.phase = .top ∨ s.phase = .drain) (hl : l ≠ .idleRet) : measure s' < measure s := by
+  apply measure_step h.idsOK hs
+  cases l with
+  | go t => obtain ⟨_, hph, _⟩ := step_go hs; rcases hp with hp | hp <;> simp [hph] at hp
+  | batch k i p => obtain ⟨_, hph, _⟩ := step_batch hs; rcases hp with hp | hp <;> simp [hph] at hp
+  | chain t ps => obtain ⟨_, hph, _⟩ := step_chain hs; rcases hp with hp | hp <;> simp [hph] at hp
+  | idle => obtain ⟨_, hph, _⟩ := step_idle hs; rcases hp with hp | hp <;> simp [hph] at hp
+  | ret => obtain ⟨_, hph, _⟩ := step_ret hs; rcases hp with hp | hp <;> simp [hph] at hp
+  | idleRet => exact absurd rfl hl
+  | _ => rfl
+
+/-- **idle_returns_only_after_progress** — the idle handler returns only after it flushed the
+    batches or delivered a resolution that was not consumed by a chain/join task (the `progress`
+    flag is reset on entry and set by exactly those two steps). -/
+theorem idle_returns_only_after_progress {c : Cfg} {s s' : St} (h : Reachable c s) (hs : step c s .idleRet = some s') :
+    s.progress = true := by
+  obtain ⟨_, _, hp, _⟩ := step_idleRet hs
+  exact h.inv1.progress hp
+
+/-- **no_blocked_task_at_return** (patched code) — after the request returned, as long as any task is
+    still running or offering its resolution, some step is enabled (a body returns, or a blocked task
+    sees `done` closed and leaves), and every such step decreases the measure: every schedule ends,
+    after at most `2·#running + #blocked` steps, with no goroutine left. -/
+theorem no_blocked_task_at_return {s : St} (h : Reachable ⟨true⟩ s) (hp : s.phase = .returned)
+    (hc : s.crashed = false) (ho : s.orphaned = []) (hne : s.running ≠ [] ∨ s.blocked ≠ []) :
+    (∃ l s', step ⟨true⟩ s l = some s') ∧
+    (∀ l s', step ⟨true⟩ s l = some s' → measure s' < measure s ∧ s'.phase = .returned) := by
+  have hb : s.batches = [] := h.inv1.retBatches rfl hp
+  constructor
+  · by_cases hbl : s.blocked = []
+    · have hr : s.running ≠ [] := by
+        rcases hne with h1 | h1
+        · exact h1
+        · exact absurd hbl h1
+      obtain ⟨t, r, s', hs⟩ := fin_enabled h.idsOK h.inv1 hc hbl hb ho hr
+      exact ⟨_, _, hs⟩
+    · obtain ⟨x, hx⟩ := List.exists_mem_of_ne_nil _ hbl
+      obtain ⟨r', hr'⟩ := mem_lookup_isSome (t := x.1) (r := x.2) hx
+      exact ⟨.release x.1, took s x.1 r', by simp [step, hc, hp, hr']⟩
+  · intro l s' hs
+    have hwork : l.isWork = true ∧ s'.phase = .returned := by
+      cases l with
+      | go t => obtain ⟨_, hph, _⟩ := step_go hs; simp [hph] at hp
+      | batch k i p => obtain ⟨_, hph, _⟩ := step_batch hs; simp [hph] at hp
+      | chain t ps => obtain ⟨_, hph, _⟩ := step_chain hs; simp [hph] at hp
+      | idle => obtain ⟨_, hph, _⟩ := step_idle hs; simp [hph] at hp
+      | ret => obtain ⟨_, hph, _⟩ := step_ret hs; simp [hph] at hp
+      | idleRet => obtain ⟨_, _, hph, _⟩ := step_idleRet hs; simp [hph] at hp
+      | flush rs => obtain ⟨_, hph, _⟩ := step_flush hs; simp [hph] at hp
+      | recvBlock t => obtain ⟨_, _, _, hph, _⟩ := step_recvBlock hs; simp [hph] at hp
+      | drain t => obtain ⟨_, _, _, hph, _⟩ := step_drain hs; simp [hph] at hp
+      | fin t r =>
+        obtain ⟨_, _, _, _, _, _, rfl⟩ := step_fin hs
+        exact ⟨rfl, hp⟩
+      | release t =>
+        obtain ⟨r, _, _, _, hl, rfl⟩ := step_release hs
+        rw [took_eq h.idsOK (lookup_some_mem hl)]
+        exact ⟨rfl, hp⟩
+    exact ⟨measure_step h.idsOK hs hwork.1, hwork.2⟩
+
+/-- **all_tasks_exit** (patched code) — from every reachable state after the return there is a
+    continuation (bodies returning, blocked tasks leaving through `done`) after which no goroutine of
+    the request exists; by `no_blocked_task_at_return` every maximal continuation is of this kind. -/
+theorem all_tasks_exit {s : St} (h : Reachable ⟨true⟩ s) (hp : s.phase = .returned)
+    (hc : s.crashed = false) (ho : s.orphaned = []) :
+    ∃ s', Steps ⟨true⟩ s s' ∧ s'.running = [] ∧ s'.blocked = [] := by
+  generalize hn : measure s = n
+  induction n using Nat.strongRecOn generalizing s with
+  | _ n ih =>
+    by_cases hdone : s.running = [] ∧ s.blocked = []
+    · exact ⟨s, .refl, hdone.1, hdone.2⟩
+    · have hne : s.running ≠ [] ∨ s.blocked ≠ [] := by
+        by_cases hr : s.running = []
+        · right; intro hb; exact hdone ⟨hr, hb⟩
+        · exact Or.inl hr
+      obtain ⟨⟨l, s1, hs⟩, hall⟩ := no_blocked_task_at_return h hp hc ho hne
+      obtain ⟨hlt, hp1⟩ := hall l s1 hs
+      have hco : s1.crashed = false ∧ s1.orphaned = [] := by
+        cases l with
+        | fin t r => obtain ⟨_, _, _, _, _, _, rfl⟩ := step_fin hs; exact ⟨hc, ho⟩
+        | release t =>
+          obtain ⟨r, _, _, _, hl, rfl⟩ := step_release hs
+          rw [took_eq h.idsOK (lookup_some_mem hl)]; exact ⟨hc, ho⟩
+        | go t => obtain ⟨_, hph, _⟩ := step_go hs; simp [hph] at hp
+        | batch k i p => obtain ⟨_, hph, _⟩ := step_batch hs; simp [hph] at hp
+        | chain t ps => obtain ⟨_, hph, _⟩ := step_chain hs; simp [hph] at hp
+        | idle => obtain ⟨_, hph, _⟩ := step_idle hs; simp [hph] at hp
+        | ret => obtain ⟨_, hph, _⟩ := step_ret hs; simp [hph] at hp
+        | idleRet => obtain ⟨_, _, hph, _⟩ := step_idleRet hs; simp [hph] at hp
+        | flush rs => obtain ⟨_, hph, _⟩ := step_flush hs; simp [hph] at hp
+        | recvBlock t => obtain ⟨_, _, _, hph, _⟩ := step_recvBlock hs; simp [hph] at hp
+        | drain t => obtain ⟨_, _, _, hph, _⟩ := step_drain hs; simp [hph] at hp
+      obtain ⟨s', hst, h1, h2⟩ := ih (measure s1) (hn ▸ hlt) (h.step hs) hp1 hco.1 hco.2 rfl
+      exact ⟨s', .cons hs hst, h1, h2⟩
+
+/-- The history of F-15a in the *unpatched* code: one Go task, the request returns (a failing
+    non-null sibling), the task's body returns. -/
+def f15aHistory : List Label := [.go 0, .ret, .fin 0 ⟨5, false⟩]
+
+/-- **no_blocked_task_at_return is false of the unpatched code** (negation witness, F-15a): the
+    history above is an execution, it ends after the return with the task offering its resolution,
+    and *no* step is enabled in that state — the goroutine is parked in its send forever. -/
+theorem f15a_unfixed_witness :
+    ∃ s, runFrom ⟨false⟩ init f15aHistory 0 = .ok s ∧ s.phase = .returned ∧ s.blocked = [(0, ⟨5, false⟩)] ∧
+      ∀ l, step ⟨false⟩ s l = none := by
+  refine ⟨_, rfl, rfl, rfl, ?_⟩
+  intro l
+  cases l <;> simp [step, init]
+
+/-- The same history in the patched code goes on: the task sees `done` closed, hands its result to
+    its own promise and leaves. -/
+example : ∃ s, runFrom ⟨true⟩ init (f15aHistory ++ [.release 0]) 0 = .ok s ∧ s.blocked = [] ∧ s.running = [] ∧
+    s.delivered = [(0, ⟨5, false⟩)] := ⟨_, rfl, rfl, rfl, rfl⟩
+
+/-- **no_blocked_task_at_return_partial** (both versions of the code) — under the hypothesis that no
+    promise was abandoned, i.e. every promise created has been fulfilled, no task is left running or
+    blocked in its send (in particular at a normal return). Full statement for the unpatched code
+    (false, see `f15a_unfixed_witness`): the same without the hypothesis. -/
+theorem no_blocked_task_at_return_partial {c : Cfg} {s : St} (h : Reachable c s)
+    (hall : ∀ p, p < s.next → p ∈ s.delivered.map (·.1)) : s.running = [] ∧ s.blocked = [] := by
+  have key : ∀ p, (rIds s).count p = 0 ∧ (bIds s).count p = 0 := by
+    intro p
+    have hcnt := h.idsOK p
+    unfold cnt at hcnt
+    split at hcnt
+    · rename_i hlt
+      have : 0 < (dIds s).count p := List.count_pos_iff.mpr (hall p hlt)
+      omega
+    · omega
+  constructor
+  · cases hr : s.running with
+    | nil => rfl
+    | cons t ts =>
+      have := (key t.id).1
+      simp [rIds, hr] at this
+  · cases hb : s.blocked with
+    | nil => rfl
+    | cons x xs =>
+      have := (key x.1).2
+      simp [bIds, hb] at this
+
+/-- Non-vacuity of the progress theorems: a chained history (pagination.go: `chain` on a Go promise)
+    — the blocking receive loops once for the chained promise and returns after the chain task's. -/
+example :
+    (match runFrom ⟨true⟩ init [.go 0, .chain 1 [0], .idle, .fin 0 ⟨4, false⟩, .recvBlock 0, .fin 1 ⟨9, false⟩,
+        .recvBlock 1, .idleRet, .ret] 0 with
+     | .ok s => some (s.delivered.map (·.1), s.running.length, s.blocked.length, s.phase)
+     | .error _ => none) = some ([1, 0], 0, 0, .returned) := by rfl
+
+/-- **contract_keeps_model_clean** — if every batch function returns exactly one result per field
+    context, the two failure flags of the model stay clear: no promise is orphaned (too few results)
+    and no flush goroutine panics (too many). This discharges the hypotheses of `idle_progress`,
+    `no_blocked_task_at_return` and `all_tasks_exit`. -/
+theorem contract_keeps_model_clean {c : Cfg} {s : St} (h : ReachableWF c s) : s.orphaned = [] ∧ s.crashed = false := by
+  induction h with
+  | init => exact ⟨rfl, rfl⟩
+  | @step s s' l hr hwf hs ih =>
+    have hi := hr.reachable.idsOK
+    cases l with
+    | go t => obtain ⟨_, _, rfl, rfl⟩ := step_go hs; exact ih
+    | batch k item p => obtain ⟨_, _, rfl, rfl⟩ := step_batch hs; exact ih
+    | chain t ps => obtain ⟨_, _, rfl, _, rfl⟩ := step_chain hs; exact ih
+    | fin t r => obtain ⟨_, _, _, _, _, _, rfl⟩ := step_fin hs; exact ih
+    | idle => obtain ⟨_, _, _, rfl⟩ := step_idle hs; exact ih
+    | flush rs =>
+      obtain ⟨_, _, _, rfl⟩ := step_flush hs
+      rw [flushAll_fresh s.wave rs s.batches s hi.q_not_delivered hi.q_nodup]
+      obtain ⟨h1, h2⟩ := flushOrph_wf rs s.batches hwf
+      simp [h1, h2, ih.1, ih.2]
+    | recvBlock t =>
+      obtain ⟨r, _, _, _, _, hl, rfl⟩ := step_recvBlock hs
+      rw [took_eq hi (lookup_some_mem hl)]
+      split <;> exact ih
+    | drain t =>
+      obtain ⟨r, _, _, _, hl, rfl⟩ := step_drain hs
+      rw [took_eq hi (lookup_some_mem hl)]; exact ih
+    | idleRet => obtain ⟨_, _, _, rfl⟩ := step_idleRet hs; exact ih
+    | ret =>
+      obtain ⟨_, _, rfl⟩ := step_ret hs
+      split
+      · rw [finishBatches_eq hi]; exact ih
+      · exact ih
+    | release t =>
+      obtain ⟨r, _, _, _, hl, rfl⟩ := step_release hs
+      rw [took_eq hi (lookup_some_mem hl)]; exact ih
+
+/-- **accepted_is_reachable** — every label sequence the driver `c15model` accepts (`runFrom … = ok s`,
+    the acceptor of the correspondence check) ends in a reachable state: the theorems above speak
+    about every execution of the real code that the correspondence check accepts. -/
+theorem accepted_is_reachable {c : Cfg} (ls : List Label) : ∀ {s0 s : St} {i : Nat}, Reachable c s0 →
+    runFrom c s0 ls i = .ok s → Reachable c s := by
+  induction ls with
+  | nil => intro s0 s i h0 hr; simp [runFrom] at hr; exact hr ▸ h0
+  | cons l ls ih =>
+    intro s0 s i h0 hr
+    simp only [runFrom] at hr
+    split at hr
+    · cases hr
+    · rename_i s1 hs
+      exact ih (h0.step hs) hr
+
+
 end ApiFu.C15
